@@ -1,4 +1,7 @@
 import XmpProofs.LoadPost
+import XmpProofs.LoadPostOblig
+import XmpProofs.LoadPostHdr
+import XmpProofs.LoadPostPlayer
 /-!
 # C03 — A successfully loaded module is structurally well-formed
 
@@ -12,14 +15,22 @@ time).  `WF` is the statement of C03 clause by clause (a `Bool`, evaluated by
 the driver on dumps of really loaded modules); `WFCommon` is the part the
 common path is responsible for.
 
-Full statement (goal): `load returns 0 → WF m`.  Proved here: `WFCommon m` for
-every raw module and every scan behaviour, the sequence clauses at full
-strength, names, and the lower bounds under the loaders' contract
-(`C03_nonneg`).  NOT provable from the common path (`…_partial` in the sense of
-CONVENTIONS): the clauses `rows`, `subinstruments`, `samples` of `WF` depend on
-each format loader and on `libxmp_load_sample` (C20); they are evaluated on real
-loads by the check (`tools/checks/c03.py`), `C03_helpers_*` prove them for the
-allocation helpers, and `allocSites_known` pins the loaders that bypass them.
+Full statement: `load returns 0 → WF m`.  Proved here:
+* `C03_finish_wf`: `WFCommon m` for every raw module and every scan behaviour (the clauses the
+  common path establishes by itself, now including ordered loop points inside the data for EVERY
+  sample with data, looped or not);
+* `C03_finish_full`: the FULL `WF m` under the named decidable loader obligations
+  `LoaderOblig raw` (rows ≥ 1, sub-instrument arrays allocated, sample length ≥ 0 and guard frames,
+  envelope points not negative, names terminated, restart ≥ 0), and `C03_oblig_necessary`: every
+  obligation except `names` is also necessary.  The check evaluates `LoaderOblig` on the raw module
+  of every real load;
+* `C03_hdr_mod/s3m/xm/it`, `C03_hdr_rows`, `C03_count_oblig`: for EVERY header the four core
+  loaders accept, the counts they leave pass the gate and need no clamp; pattern rows in range;
+* `C03_player_sub/sample/trusted`: the player's guards render out-of-range instrument / key /
+  sub-instrument / sample references harmless;
+* the sequence clauses at full strength, names, `C03_helpers_*`, `allocSites_known`.
+NOT proved (evaluated on real loads only): that the ~110 format loaders meet `LoaderOblig`
+beyond their header counts (pattern / instrument / sample bodies, `libxmp_load_sample` = C20).
 -/
 namespace Xmp.LoadPost
 open Xmp.Gen.Limits
@@ -99,8 +110,12 @@ theorem C03_finish_wf (scan : Nat → ScanRes) (raw m : Module) (h : finish scan
     subst hm; rcases hcase with hc | ⟨hf, _, hc⟩ <;> subst hc
     · left; rfl
     · right; exact ⟨rfl, hf, rfl, rfl⟩
+  have hranges : sampleRangesOK m = true := by
+    apply sampleRanges_of (a := adjustNames raw)
+    · subst hm; rcases hcase with hc | ⟨_, _, hc⟩ <;> subst hc <;> rfl
+    · subst hm; rcases hcase with hc | ⟨_, _, hc⟩ <;> subst hc <;> rfl
   simp only [WFCommon, Bool.and_eq_true]
-  exact ⟨⟨⟨⟨⟨⟨⟨⟨⟨⟨⟨hcounts, hpats⟩, hrst⟩, hspd⟩, hbpm⟩, hchan⟩, henv⟩, hsus⟩, hord⟩, hseq.1⟩, hseq.2⟩, hloops⟩
+  exact ⟨⟨⟨⟨⟨⟨⟨⟨⟨⟨⟨⟨hcounts, hpats⟩, hrst⟩, hspd⟩, hbpm⟩, hchan⟩, henv⟩, hsus⟩, hord⟩, hseq.1⟩, hseq.2⟩, hloops⟩, hranges⟩
 
 
 /-- **C03_sequences**: after `libxmp_scan_sequences`, unless the order list is
@@ -116,7 +131,7 @@ theorem C03_sequences (scan : Nat → ScanRes) (raw m : Module) (h : finish scan
     ∧ ∀ ord : Nat, (ord : Int) < m.len → ∃ c, m.seqCtl[ord]? = some c ∧ (c = 0xff ∨ c < m.numSeq) := by
   have hw := C03_finish_wf scan raw m h
   simp only [WFCommon, Bool.and_eq_true] at hw
-  obtain ⟨⟨⟨_, hs⟩, hc⟩, _⟩ := hw
+  obtain ⟨⟨⟨⟨_, hs⟩, hc⟩, _⟩, _⟩ := hw
   simp only [sequencesOK, Bool.or_eq_true, Bool.and_eq_true, decide_eq_true_eq, List.all_eq_true] at hs
   rcases hs with hs | ⟨⟨⟨⟨h1, h2⟩, h3⟩, h4⟩, h5⟩
   · omega
@@ -285,7 +300,7 @@ theorem C03_nonneg (scan : Nat → ScanRes) (raw m : Module) (h : finish scan ra
   constructor
   · simp only [WFCommon, Bool.and_eq_true] at hw
     simp only [rstOK, Bool.and_eq_true, decide_eq_true_eq]
-    refine ⟨?_, hw.1.1.1.1.1.1.1.1.1.2⟩
+    refine ⟨?_, hw.1.1.1.1.1.1.1.1.1.1.2⟩
     rw [hrst]; split <;> omega
   · unfold envelopesOK
     rw [allBelow_iff]
@@ -298,6 +313,120 @@ theorem C03_nonneg (scan : Nat → ScanRes) (raw m : Module) (h : finish scan ra
     obtain ⟨h1, h2, h3⟩ := he _ (List.getElem_mem hi2)
     simp only [Bool.and_eq_true]
     exact ⟨⟨checkEnvelope_envOK _ h1, checkEnvelope_envOK _ h2⟩, checkEnvelope_envOK _ h3⟩
+
+/-- a minimal raw module meeting every obligation -/
+def exRawMin : Module :=
+  { name := [0x41, 0], pat := 1, trk := 1, chn := 1, ins := 0, smp := 0, spd := 6, bpm := 125, len := 1, rst := 0,
+    gvl := 0, xxp := some [some { rows := 4, index := [0] }], xxt := some [some { rows := 4 }], xxi := [], xxs := [],
+    xtra := [], xxc := List.replicate 64 { pan := 0x80, vol := 0x40, flg := 0 }, xxo := List.replicate 256 0,
+    insvol := false, volbase := 0x40, gvol := 0x40 }
+
+/-- **C03_finish_full**: the FULL statement of C03.  Whenever the common
+post-load path succeeds on a raw module that meets the loader obligations
+(`LoaderOblig`: rows ≥ 1 for every pattern and referenced track, sub-instrument
+arrays allocated, samples with data have a non-negative length and readable guard
+frames, loop / sustain points of envelopes that survive `check_envelope` are not
+negative, names are NUL-terminated, restart position not negative), every clause
+of `WF` holds — for arbitrary `scan_module` behaviour.  `LoaderOblig` is the
+predicate the check evaluates on the raw module of every real load. -/
+theorem C03_finish_full (scan : Nat → ScanRes) (raw m : Module) (h : finish scan raw = .ok m)
+    (ho : LoaderOblig raw = true) : WF m = true := by
+  have hw := C03_finish_wf scan raw m h
+  have sh := finish_shape h
+  simp only [LoaderOblig, obligClauses, List.all_cons, List.all_nil, Bool.and_true, Bool.and_eq_true,
+    decide_eq_true_eq] at ho
+  obtain ⟨o1, o2, o3, o4, o5, o6⟩ := ho
+  simp only [WFCommon, Bool.and_eq_true] at hw
+  obtain ⟨⟨⟨⟨⟨⟨⟨⟨⟨⟨⟨⟨c1, c2⟩, c3⟩, c4⟩, c5⟩, c6⟩, c7⟩, c8⟩, c9⟩, c10⟩, c11⟩, c12⟩, c13⟩ := hw
+  have hrst : rstOK m = true := by
+    simp only [rstOK, Bool.and_eq_true, decide_eq_true_eq]
+    exact ⟨rst_of sh o6, c3⟩
+  simp only [WF, wfClauses, List.all_cons, List.all_nil, Bool.and_true, Bool.and_eq_true]
+  exact ⟨c1, c2, rows_of sh o1, subs_of sh o2, samples_of sh o3, envelopes_of sh o4, names_of sh o5, hrst,
+    c4, c5, c10, c11, c6, c9, c8, c7, c3, c12, c13⟩
+
+/-- **C03_oblig_necessary**: conversely, every clause of `LoaderOblig` except
+`names` is implied by `WF` of the loaded module: when the check reports an
+obligation failure on the raw module of a real load, the property itself fails
+on that load (no false alarm).  (`names`: a raw name without NUL makes
+`libxmp_adjust_string` read past the array — undefined behaviour the model does
+not reproduce.) -/
+theorem C03_oblig_necessary (scan : Nat → ScanRes) (raw m : Module) (h : finish scan raw = .ok m)
+    (hw : WF m = true) : ∀ c ∈ obligClauses raw, c.1 ≠ "names" → c.2 = true := by
+  have sh := finish_shape h
+  obtain ⟨hg, _⟩ := finish_ok h
+  obtain ⟨_, _, _, _, g5⟩ := gate_spec hg
+  simp only [WF, wfClauses, List.all_cons, List.all_nil, Bool.and_true, Bool.and_eq_true] at hw
+  obtain ⟨_, _, w3, w4, w5, w6, _, w8, _⟩ := hw
+  simp only [rstOK, Bool.and_eq_true, decide_eq_true_eq] at w8
+  intro c hc hn
+  simp only [obligClauses, List.mem_cons, List.not_mem_nil, or_false] at hc
+  rcases hc with rfl | rfl | rfl | rfl | rfl | rfl
+  · exact rows_conv sh g5 w3
+  · exact subs_conv sh w4
+  · exact samples_conv sh w5
+  · exact envelopes_conv sh w6
+  · exact absurd rfl hn
+  · simp only [decide_eq_true_eq]; exact rst_conv sh w8.1
+
+/-- **C03_finish_full_vblank**: the same with the CIA/VBlank comparison of
+`libxmp_scan_sequences` (`compare_vblank_scan`) in the path: it only changes which
+behaviour of `scan_module` the bookkeeping sees, and the theorems hold for all. -/
+theorem C03_finish_full_vblank (cv : Bool) (scan : Nat → ScanRes) (raw m : Module)
+    (h : finishV cv scan raw = .ok m) :
+    WFCommon m = true ∧ (LoaderOblig raw = true → WF m = true) :=
+  ⟨C03_finish_wf (vblankScan cv scan) raw m h, C03_finish_full (vblankScan cv scan) raw m h⟩
+
+/-- **C03_vblank_first**: what `compare_vblank_scan` keeps: without the comparison
+the first scan itself, with it the shorter of the two scans of order 0 (the first
+one on a tie); later calls are the remaining scans in order. -/
+theorem C03_vblank_first (cv : Bool) (scan : Nat → ScanRes) :
+    (¬ (cv = true ∧ (scan 0).time ≥ (vblankTimeThreshold : Int)) → vblankScan cv scan = scan)
+    ∧ (cv = true → (scan 0).time ≥ (vblankTimeThreshold : Int) →
+        (vblankScan cv scan 0 = scan 0 ∨ vblankScan cv scan 0 = scan 1)
+        ∧ (vblankScan cv scan 0).time ≤ (scan 0).time ∧ (vblankScan cv scan 0).time ≤ (scan 1).time
+        ∧ ∀ k, vblankScan cv scan (k + 1) = scan (k + 2)) := by
+  constructor
+  · intro hn
+    unfold vblankScan
+    split
+    · rename_i hc
+      simp only [Bool.and_eq_true, decide_eq_true_eq] at hc
+      exact absurd hc hn
+    · rfl
+  · intro hc ht
+    have hcond : (cv && decide ((scan 0).time ≥ (vblankTimeThreshold : Int))) = true := by
+      simp only [Bool.and_eq_true, decide_eq_true_eq]; exact ⟨hc, ht⟩
+    unfold vblankScan
+    rw [if_pos hcond]
+    refine ⟨?_, ?_, ?_, ?_⟩
+    · simp only [if_true]; split
+      · left; rfl
+      · right; rfl
+    · simp only [if_true]; split <;> omega
+    · simp only [if_true]; split <;> omega
+    · intro k; simp
+
+/-- non-vacuity of `C03_finish_full`: `exRaw` (below) meets the obligations and loads -/
+example : ∃ raw m, finish (fun _ => { marks := [], time := 480 }) raw = .ok m ∧ LoaderOblig raw = true :=
+  ⟨{ name := [0x41, 0], pat := 1, trk := 1, chn := 1, ins := 1, smp := 1, spd := 6, bpm := 125, len := 1, rst := 0,
+     gvl := 0, xxp := some [some { rows := 4, index := [0] }], xxt := some [some { rows := 4 }]
+     xxi := [{ name := [0x58, 0], vol := 3, nsm := 1, sub := some [9]
+               aei := { on := true, fsus := true, floop := true, other := 0, npt := 2, sus := 1, sue := 5,
+                        lps := 0, lpe := 1, data := [0, 70, 10, -3] }
+               pei := default, fei := default }]
+     xxs := [{ name := [0], len := 100, lps := 0, lpe := 120, floop := true, fsloop := false, fsloopBidir := false,
+               other := 0, hasData := true }]
+     xtra := [{ sus := 0, sue := 0 }], xxc := List.replicate 64 { pan := 0x80, vol := 0x40, flg := 0 }
+     xxo := List.replicate 256 0, insvol := false, volbase := 0x40, gvol := 0x40 }, _, rfl, by decide +kernel⟩
+
+/-- the obligations are not implied by a successful `finish`: a 0-row pattern passes the
+gate and the whole path, and the result is not well-formed -/
+example :
+    let raw : Module := { exRawMin with xxp := some [some { rows := 0, index := [0] }] }
+    (finish (fun _ => { marks := [], time := 480 }) raw).toOption.map (fun m => (WFCommon m, WF m, LoaderOblig raw))
+      = some (true, false, false) := by
+  decide +kernel
 
 /-! ## Allocation helpers of loaders/common.c -/
 
@@ -378,6 +507,384 @@ theorem C03_helpers_pattern (limit pat trk chn : Int) (slotFree : Bool) (free : 
       · cases h
 
 
+/-! ## Header-count validation of the four core loaders
+
+`Hdr.modHeader`, `Hdr.s3mHeader`, `Hdr.xmHeader`, `Hdr.itHeader` mirror what
+mod_load.c / s3m_load.c / xm_load.c / it_load.c accept and which counts they write
+(limits regenerated from the sources into `Gen/C03Hdr.lean`, behaviour compared
+with the real loaders on boundary-probing files by the check).  For EVERY header:
+an accepted header yields counts that meet `Hdr.CountOblig` — the gate's count
+test passes and the epilogue has nothing to clamp. -/
+section Headers
+open Hdr Xmp.Gen.C03Hdr
+
+/-- the clauses of `CountOblig` with the limits spelled out -/
+theorem countOblig_of (c : Counts) (h1 : 0 ≤ c.chn) (h2 : c.chn ≤ 64) (h3 : 0 ≤ c.len) (h4 : c.len ≤ 256)
+    (h5 : 0 ≤ c.pat) (h6 : c.pat ≤ 257) (h7 : 0 ≤ c.ins) (h8 : c.ins ≤ 255) (h9 : 0 ≤ c.smp) (h10 : c.smp ≤ 1024)
+    (h11 : 0 ≤ c.trk) (h12 : 0 ≤ c.rst) : CountOblig c = true := by
+  have e1 : (xmpMaxChannels : Int) = 64 := rfl
+  have e2 : (xmpMaxModLength : Int) = 256 := rfl
+  have e3 : (epiPatMax : Int) = 257 := rfl
+  have e4 : (epiInsMax : Int) = 255 := rfl
+  have e5 : (maxSamples : Int) = 1024 := rfl
+  simp only [CountOblig, Bool.and_eq_true, decide_eq_true_eq, e1, e2, e3, e4, e5]
+  exact ⟨⟨⟨⟨⟨⟨⟨⟨⟨⟨⟨h1, h2⟩, h3⟩, h4⟩, h5⟩, h6⟩, h7⟩, h8⟩, h9⟩, h10⟩, h11⟩, h12⟩
+
+theorem rstInside_of (c : Counts) (h : c.rst < c.len ∨ c.rst = 0) : RstInside c = true := by
+  simp only [RstInside, Bool.or_eq_true, decide_eq_true_eq]; exact h
+
+/-- **C03_hdr_mod**: every MOD header `mod_test` + `mod_load` accept (any magic, order table, length and
+restart bytes) gives 1..63 channels, 1..128 patterns, 31 instruments/samples, a restart position
+below 127 — inside the order list unless `get_tracker_id` ran (the epilogue's restart repair is needed
+for exactly that path) — and `trk = chn * pat`. -/
+theorem C03_hdr_mod (magic : List Nat) (wow probe : Bool) (len restart : Nat) (orders : List Nat) (c : Counts)
+    (hlen : len ≤ 255) (h : modHeader magic wow probe len restart orders = some c) :
+    CountOblig c = true ∧ 1 ≤ c.pat ∧ c.pat ≤ 128 ∧ c.chn < 64 ∧ c.trk = c.chn * c.pat ∧ c.rst < 127
+    ∧ ((probe && !modDetected magic && !wow) = false → RstInside c = true) := by
+  unfold modHeader at h
+  split at h
+  · cases h
+  · rename_i chn _
+    split at h
+    · cases h
+    · rename_i hc
+      simp only at h
+      generalize hpr : (probe && !modDetected magic && !wow) = pr at h
+      injection h with h
+      obtain ⟨p1, p2⟩ := modPat_le orders
+      have e3 : modOrderStop = 127 := rfl
+      have e4 : modChnReject = 64 := rfl
+      have e5 : modIns = 31 := rfl
+      have e6 : modRestartMax = 127 := rfl
+      have hr0 : modRst pr (modPat orders) len restart < 127 := by
+        unfold modRst; split
+        · omega
+        · split <;> omega
+      have hr : pr = false → (modRst pr (modPat orders) len restart < len ∨ modRst pr (modPat orders) len restart = 0) := by
+        intro hp; subst hp
+        unfold modRst
+        simp only [Bool.false_eq_true, false_and, if_false]
+        split <;> omega
+      have f1 : c.chn = (chn : Int) := by rw [← h]
+      have f2 : c.pat = (modPat orders : Int) := by rw [← h]
+      have f3 : c.trk = (chn : Int) * (modPat orders : Int) := by rw [← h]
+      have f4 : c.ins = (modIns : Int) := by rw [← h]
+      have f5 : c.smp = (modIns : Int) := by rw [← h]
+      have f6 : c.len = (len : Int) := by rw [← h]
+      have f7 : c.rst = (modRst pr (modPat orders) len restart : Int) := by rw [← h]
+      have ht : (0 : Int) ≤ (chn : Int) * (modPat orders : Int) := Int.mul_nonneg (by omega) (by omega)
+      refine ⟨?_, by omega, by omega, by omega, by rw [f3, f1, f2], by omega, ?_⟩
+      · apply countOblig_of <;> omega
+      · intro hp
+        have := hr hp
+        apply rstInside_of; omega
+
+/-- **C03_hdr_s3m**: every S3M header `s3m_load` accepts gives 0..32 channels, 1..255 patterns,
+at most 255 orders, instruments and samples, restart 0. -/
+theorem C03_hdr_s3m (ffi ordnum insnum patnum : Nat) (magicOK : Bool) (chset orders : List Nat) (c : Counts)
+    (h : s3mHeader ffi ordnum insnum patnum magicOK chset orders = some c) :
+    CountOblig c = true ∧ RstInside c = true ∧ 1 ≤ c.pat ∧ c.chn ≤ 32 ∧ c.trk = c.pat * c.chn ∧ c.rst = 0 := by
+  unfold s3mHeader at h
+  split at h
+  · cases h
+  · split at h
+    · cases h
+    · rename_i hlim
+      split at h
+      · cases h
+      · generalize hlen : capLen ordnum = len at h
+        generalize hpat : s3mPat orders len patnum = pat at h
+        generalize hchn : s3mChn chset = chn at h
+        simp only at h
+        split at h
+        · cases h
+        · rename_i hp0
+          injection h with h
+          have hc := s3mChn_le chset
+          have hp := s3mPat_le orders len patnum
+          rw [hpat] at hp
+          rw [hchn] at hc
+          have e2 : xmpMaxModLength = 256 := rfl
+          have e3 : s3mChannels = 32 := rfl
+          have e4 : s3mOrdMax = 255 := rfl
+          have e5 : s3mInsMax = 255 := rfl
+          have e6 : s3mPatMax = 255 := rfl
+          have hl : len ≤ 255 := by rw [← hlen]; unfold capLen; split <;> omega
+          have f1 : c.chn = (chn : Int) := by rw [← h]
+          rw [hpat] at h hp0
+          have f2 : c.pat = (pat : Int) := by rw [← h]
+          have f3 : c.trk = (pat : Int) * (chn : Int) := by rw [← h]
+          have f4 : c.ins = (insnum : Int) := by rw [← h]
+          have f5 : c.smp = (insnum : Int) := by rw [← h]
+          have f6 : c.len = (len : Int) := by rw [← h]
+          have f7 : c.rst = 0 := by rw [← h]
+          have ht : (0 : Int) ≤ (pat : Int) * (chn : Int) := Int.mul_nonneg (by omega) (by omega)
+          refine ⟨?_, ?_, by omega, by omega, by rw [f3, f1, f2], f7⟩
+          · apply countOblig_of <;> omega
+          · apply rstInside_of; omega
+
+/-- **C03_hdr_xm**: every XM header `xm_load` accepts gives at most 64 channels, 257 patterns
+(one extra), 256 orders, 255 instruments and a restart position inside the order list; tempo and BPM
+are in FT2's range unless the tracker field says MED2XM.  (`smp` is counted by `load_instruments`,
+capped by `MAX_SAMPLES`: hypothesis.) -/
+theorem C03_hdr_xm (songlen restart channels patterns instruments tempo bpm headersz : Nat) (med2xm : Bool)
+    (smp : Nat) (c : Counts) (hs : smp ≤ maxSamples)
+    (h : xmHeader songlen restart channels patterns instruments tempo bpm headersz med2xm smp = some c) :
+    CountOblig c = true ∧ RstInside c = true ∧ c.pat = patterns + 1 ∧ c.chn = channels ∧ c.len = songlen
+    ∧ (med2xm = false → tempo < 32 ∧ 32 ≤ bpm ∧ bpm ≤ 1000) := by
+  unfold xmHeader at h
+  split at h
+  · cases h
+  · split at h
+    · cases h
+    · split at h
+      · cases h
+      · split at h
+        · cases h
+        · split at h
+          · cases h
+          · rename_i htb
+            split at h
+            · cases h
+            · split at h
+              · cases h
+              generalize hrst : xmRst songlen restart = rst at h
+              injection h with h
+              have e1 : xmLenMax = 256 := rfl
+              have e2 : xmPatMax = 256 := rfl
+              have e3 : xmInsMax = 255 := rfl
+              have e4 : xmChnMax = 64 := rfl
+              have e5 : xmTempoReject = 32 := rfl
+              have e6 : xmBpmMin = 32 := rfl
+              have e7 : xmBpmMax = 1000 := rfl
+              have e8 : maxSamples = 1024 := rfl
+              have hr : rst < songlen ∨ rst = 0 := by rw [← hrst]; unfold xmRst; split <;> omega
+              have f1 : c.chn = (channels : Int) := by rw [← h]
+              have f2 : c.pat = (patterns : Int) + 1 := by rw [← h]
+              have f3 : c.trk = (channels : Int) * (patterns : Int) + 1 := by rw [← h]
+              have f4 : c.ins = (instruments : Int) := by rw [← h]
+              have f5 : c.smp = (smp : Int) := by rw [← h]
+              have f6 : c.len = (songlen : Int) := by rw [← h]
+              have f7 : c.rst = (rst : Int) := by rw [← h]
+              have ht : (0 : Int) ≤ (channels : Int) * (patterns : Int) := Int.mul_nonneg (by omega) (by omega)
+              refine ⟨?_, ?_, f2, f1, f6, ?_⟩
+              · apply countOblig_of <;> omega
+              · apply rstInside_of; omega
+              · intro hm
+                simp only [hm, and_true, not_or] at htb
+                omega
+
+/-- **C03_hdr_it**: every IT header `it_load` accepts gives 1..64 channels (the pattern scan
+masks the channel number with 63), at most 255 patterns, instruments and samples, at most 256 orders. -/
+theorem C03_hdr_it (ordnum insnum smpnum patnum gv : Nat) (sampleMode : Bool) (maxCh : Nat) (c : Counts)
+    (hch : maxCh ≤ itChannelMask) (h : itHeader ordnum insnum smpnum patnum gv sampleMode maxCh = some c) :
+    CountOblig c = true ∧ RstInside c = true ∧ 1 ≤ c.chn ∧ c.trk = c.pat * c.chn ∧ c.rst = 0 ∧ gv ≤ 128 := by
+  unfold itHeader at h
+  split at h
+  · cases h
+  · rename_i hgv
+    split at h
+    · cases h
+    · generalize hlen : capLen ordnum = len at h
+      simp only at h
+      generalize hins : (if sampleMode = true then smpnum else insnum) = ins at h
+      injection h with h
+      have e1 : itInsMax = 255 := rfl
+      have e2 : itSmpMax = 255 := rfl
+      have e3 : itPatMax = 255 := rfl
+      have e4 : itGvMax = 128 := rfl
+      have e5 : itChannelMask = 63 := rfl
+      have e6 : xmpMaxModLength = 256 := rfl
+      have hl : len ≤ 256 := by rw [← hlen]; unfold capLen; split <;> omega
+      have hi : ins ≤ 255 := by rw [← hins]; split <;> omega
+      have f1 : c.chn = ((maxCh + 1 : Nat) : Int) := by rw [← h]
+      have f2 : c.pat = (patnum : Int) := by rw [← h]
+      have f3 : c.trk = (patnum : Int) * ((maxCh + 1 : Nat) : Int) := by rw [← h]
+      have f4 : c.ins = (ins : Int) := by rw [← h]
+      have f5 : c.smp = (smpnum : Int) := by rw [← h]
+      have f6 : c.len = (len : Int) := by rw [← h]
+      have f7 : c.rst = 0 := by rw [← h]
+      have ht : (0 : Int) ≤ (patnum : Int) * ((maxCh + 1 : Nat) : Int) := Int.mul_nonneg (by omega) (by omega)
+      refine ⟨?_, ?_, by omega, by rw [f3, f1, f2], f7, by omega⟩
+      · apply countOblig_of <;> omega
+      · apply rstInside_of; omega
+
+/-- **C03_hdr_rows**: the row counts the XM and IT pattern headers can produce, and the fixed
+row counts of MOD / S3M patterns and of the XM extra pattern, lie in 1..256 (IT: 1..1024): the `rows`
+obligation for the patterns themselves (their tracks get the same count from
+`libxmp_alloc_tracks_in_pattern`, see `C03_helpers_pattern`). -/
+theorem C03_hdr_rows :
+    (∀ version field r, xmPatRows version field = some r → 1 ≤ r ∧ r ≤ 256)
+    ∧ (∀ offset n r, itPatRows offset n = some r → 1 ≤ r ∧ r ≤ 1024)
+    ∧ 1 ≤ modRows ∧ modRows ≤ 256 ∧ 1 ≤ s3mRows ∧ s3mRows ≤ 256 ∧ 1 ≤ xmExtraRows := by
+  refine ⟨?_, ?_, by decide, by decide, by decide, by decide, by decide⟩
+  · intro version field r h
+    unfold xmPatRows at h
+    generalize (if version > 0x0102 then field else field + 1) = rows at h
+    simp only at h
+    split at h
+    · cases h
+    · generalize (if rows = 0 then xmRowsZero else rows) = r' at h
+      split at h
+      · cases h
+      · rename_i hr
+        injection h with h
+        have e : helperRowsMax = 256 := rfl
+        omega
+  · intro offset n r h
+    unfold itPatRows at h
+    have e1 : itEmptyRows = 64 := rfl
+    have e2 : itRowsMax = 1024 := rfl
+    split at h
+    · injection h with h; omega
+    · split at h
+      · cases h
+      · injection h with h; omega
+
+/-- **C03_count_oblig**: a raw module whose counts meet `CountOblig` passes the gate's count
+test, and the epilogue's count CLAMPs and restart repair leave it as it is: the counts the loader
+sized its tables for are exactly the counts the loaded module exposes. -/
+theorem C03_count_oblig (raw : Module) (h : CountOblig (countsOf raw) = true) :
+    clampCounts raw = raw
+    ∧ ¬ (raw.chn > (xmpMaxChannels : Int) ∨ raw.len > (xmpMaxModLength : Int))
+    ∧ (epilogue (adjustNames raw)).len = raw.len
+    ∧ (epilogue (adjustNames raw)).pat = raw.pat ∧ (epilogue (adjustNames raw)).chn = raw.chn
+    ∧ (epilogue (adjustNames raw)).ins = raw.ins ∧ (epilogue (adjustNames raw)).smp = raw.smp
+    ∧ 0 ≤ (epilogue (adjustNames raw)).rst
+    ∧ (RstInside (countsOf raw) = true → (epilogue (adjustNames raw)).rst = raw.rst) := by
+  unfold CountOblig countsOf at h
+  simp only [Bool.and_eq_true, decide_eq_true_eq] at h
+  obtain ⟨⟨⟨⟨⟨⟨⟨⟨⟨⟨⟨c1, c2⟩, l1⟩, l2⟩, p1⟩, p2⟩, i1⟩, i2⟩, s1⟩, s2⟩, _⟩, r1⟩ := h
+  have k : ∀ x b : Int, 0 ≤ x → x ≤ b → clampC x 0 b = x := by
+    intro x b h0 hb; unfold clampC; split
+    · omega
+    · split <;> omega
+  refine ⟨?_, by omega, ?_, ?_, ?_, ?_, ?_, ?_, ?_⟩
+  · unfold clampCounts
+    rw [k _ _ p1 p2, k _ _ i1 i2, k _ _ s1 s2, k _ _ c1 c2]
+  · show clampC raw.len 0 xmpMaxModLength = raw.len
+    exact k _ _ l1 l2
+  · exact k _ _ p1 p2
+  · exact k _ _ c1 c2
+  · exact k _ _ i1 i2
+  · exact k _ _ s1 s2
+  · show 0 ≤ (if raw.rst ≥ clampC raw.len 0 xmpMaxModLength then 0 else raw.rst)
+    split <;> omega
+  · intro hr
+    unfold RstInside countsOf at hr
+    simp only [Bool.or_eq_true, decide_eq_true_eq] at hr
+    show (if raw.rst ≥ clampC raw.len 0 xmpMaxModLength then 0 else raw.rst) = raw.rst
+    rw [k _ _ l1 l2]; split <;> omega
+
+/-- non-vacuity: MOD headers the loader accepts / refuses ("M.K.", "32CH", "33CH") -/
+example :
+    (modHeader [77, 46, 75, 46] false true 3 127 [0, 2, 1, 200, 9]).map (fun c => (c.chn, c.pat, c.trk, c.ins, c.len, c.rst))
+      = some (4, 3, 12, 31, 3, 0)
+    ∧ (modHeader [51, 50, 67, 72] false true 255 2 [127]).map (fun c => (c.chn, c.pat, c.rst)) = some (32, 128, 2)
+    ∧ modHeader [51, 51, 67, 72] false true 1 0 [0] = none
+    -- "8CHN", restart byte 126 beyond a 6-entry order list: `get_tracker_id` stores it unchecked
+    ∧ (modHeader [56, 67, 72, 78] false true 6 126 [0]).map (fun c => (c.len, c.rst, RstInside c)) = some (6, 126, false) := by
+  decide +kernel
+/-- S3M: channel settings, "don't trust patnum", 256 orders refused, no pattern refused -/
+example :
+    (s3mHeader 2 4 9 7 true ([0, 1, 255, 8] ++ List.replicate 28 255) [0, 254, 6, 255]).map
+        (fun c => (c.chn, c.pat, c.trk, c.ins, c.len)) = some (4, 7, 28, 9, 4)
+    ∧ s3mHeader 2 256 0 1 true [] [] = none ∧ s3mHeader 2 2 0 5 true [0] [254, 255] = none := by
+  decide +kernel
+/-- XM: every count at its upper limit is accepted, one above is refused; MED2XM waives tempo/BPM -/
+example :
+    (xmHeader 256 300 64 256 255 31 1000 276 false 16).map (fun c => (c.chn, c.pat, c.trk, c.len, c.rst))
+        = some (64, 257, 16385, 256, 0)
+    ∧ xmHeader 257 0 4 1 0 6 125 276 false 0 = none ∧ xmHeader 1 0 65 1 0 6 125 276 false 0 = none
+    ∧ xmHeader 1 0 4 1 0 32 125 276 false 0 = none ∧ (xmHeader 1 0 4 1 0 32 125 276 true 0).isSome = true
+    ∧ xmPatRows 0x0104 0 = some 256 ∧ xmPatRows 0x0104 257 = none ∧ xmPatRows 0x0102 255 = some 256 := by
+  decide +kernel
+/-- IT: limits, sample mode, capped order list, pattern row rules -/
+example :
+    (itHeader 300 9 5 255 128 true 63).map (fun c => (c.chn, c.pat, c.trk, c.ins, c.smp, c.len))
+        = some (64, 255, 16320, 5, 5, 256)
+    ∧ itHeader 1 0 0 256 64 false 0 = none ∧ itHeader 1 0 0 1 129 false 0 = none
+    ∧ itPatRows 0 5 = some 64 ∧ itPatRows 9 1025 = some 64 ∧ itPatRows 9 0 = none ∧ itPatRows 9 1024 = some 1024 := by
+  decide +kernel
+end Headers
+
+/-! ## Player-side tolerance: out-of-range references are rendered harmless
+
+The load path never validates the instrument number / note of an event, the key
+map `xxi[i].map[key].ins` or the sample id `sub[j].sid`.  The player's guards
+(`Player.getSub` = `get_subinstrument`, `IS_VALID_INSTRUMENT/NOTE/SAMPLE`; texts and
+shapes regenerated from src/player.h, src/read_event.c, src/smix.c:
+`Player.guards_present`) make them harmless for EVERY loaded module. -/
+section PlayerGuards
+open Player
+
+/-- **C03_player_sub**: for a module the post-load path produced, ANY event instrument number
+and key (any C `int`s) and ANY key map: `get_subinstrument` returns NULL or points at
+sub-instrument `j < nsm` of an instrument inside the table — which is allocated when the loader
+met its obligations. -/
+theorem C03_player_sub (scan : Nat → ScanRes) (raw m : Module) (h : finish scan raw = .ok m)
+    (map : Nat → Nat → Nat) (ins key : Int) (hi0 : -2147483648 ≤ ins) (hi1 : ins < 2147483648) (i j : Nat)
+    (hg : getSub m map ins key = some (i, j)) :
+    (i : Int) < m.ins ∧ ∃ x, m.xxi[i]? = some x ∧ (j : Int) < x.nsm
+      ∧ (LoaderOblig raw = true → x.sub.isSome = true) := by
+  have hw := C03_finish_wf scan raw m h
+  have hc : countsOK m = true := by simp only [WFCommon, Bool.and_eq_true] at hw; simp [hw]
+  obtain ⟨_, hlt, x, hx, hj⟩ := getSub_spec m hc map ins key hi0 hi1 i j hg
+  refine ⟨hlt, x, hx, hj, ?_⟩
+  intro ho
+  have hf := C03_finish_full scan raw m h ho
+  simp only [WF, wfClauses, List.all_cons, List.all_nil, Bool.and_true, Bool.and_eq_true] at hf
+  have hs : subsOK m = true := hf.2.2.2.1
+  have := allBelow_iff.mp hs i hlt
+  simp only [hx, Bool.or_eq_true, decide_eq_true_eq] at this
+  rcases this with h1 | h1
+  · have : (0 : Int) ≤ (j : Int) := by omega
+    omega
+  · exact h1
+
+/-- **C03_player_sample**: the guarded chain event → sub-instrument → `sid` → sample
+(`smp = sub->sid; if (!IS_VALID_SAMPLE(smp)) smp = -1; if (smp >= 0 && smp < mod->smp) …`): whatever
+the `sid`s hold — negative, beyond the table, pointing at a sample without data — the sample that
+gets played lies inside the sample table and has data. -/
+theorem C03_player_sample (scan : Nat → ScanRes) (raw m : Module) (h : finish scan raw = .ok m)
+    (map : Nat → Nat → Nat) (ins key : Int) (s : Nat) (hs : sampleOf m map ins key = some s) :
+    (s : Int) < m.smp ∧ ∃ sm, m.xxs[s]? = some sm ∧ sm.hasData = true := by
+  have hw := C03_finish_wf scan raw m h
+  have hc : countsOK m = true := by simp only [WFCommon, Bool.and_eq_true] at hw; simp [hw]
+  exact sampleOf_spec m hc map ins key s hs
+
+/-- **C03_player_trusted**: the few UNGUARDED uses of `sub->sid` (`Player.sidSites_known` pins
+them: Protracker sample swap, FT2 offset bug emulation, MED / HMN synth waveforms, smix) index the
+sample table directly.  They are safe exactly under the extra loader obligation `sidsOK` (every
+`sid` of a sub-instrument in use lies inside the sample table), which the post-load path preserves. -/
+theorem C03_player_trusted (scan : Nat → ScanRes) (raw m : Module) (h : finish scan raw = .ok m)
+    (hso : sidsOK (clampCounts raw) = true)
+    (map : Nat → Nat → Nat) (ins key : Int) (hi0 : -2147483648 ≤ ins) (hi1 : ins < 2147483648) (i j : Nat)
+    (hg : getSub m map ins key = some (i, j)) :
+    ∃ x, m.xxi[i]? = some x ∧ ∀ sd, x.sids[j]? = some sd → 0 ≤ sd ∧ sd < m.smp := by
+  have hw := C03_finish_wf scan raw m h
+  have hc : countsOK m = true := by simp only [WFCommon, Bool.and_eq_true] at hw; simp [hw]
+  exact trusted_spec m hc (sids_of (finish_shape h) hso) map ins key hi0 hi1 i j hg
+
+/-- non-vacuity: one instrument, two sub-instruments with sample ids 7 (beyond the table) and 0;
+key 3 is mapped to the first, key 4 to the second, key 5 to 0xff (no sub-instrument) -/
+example :
+    let m : Module := { exRawMin with
+                        ins := 1, smp := 1,
+                        xxi := [{ name := [0], vol := 0, nsm := 2, sub := some [0, 0], sids := [7, 0],
+                                  aei := default, pei := default, fei := default }],
+                        xxs := [{ name := [0], len := 4, lps := 0, lpe := 0, floop := false, fsloop := false,
+                                  fsloopBidir := false, other := 0, hasData := true }] }
+    let map : Nat → Nat → Nat := fun _ k => if k = 3 then 0 else if k = 4 then 1 else 0xff
+    getSub m map 0 3 = some (0, 0) ∧ sampleOf m map 0 3 = none       -- sid 7: rendered harmless
+    ∧ getSub m map 0 4 = some (0, 1) ∧ sampleOf m map 0 4 = some 0
+    ∧ getSub m map 0 5 = none ∧ getSub m map 1 3 = none ∧ getSub m map (-1) 3 = none
+    ∧ getSub m map 0 200 = some (0, 0)                               -- invalid key: first sub-instrument
+    ∧ sidsOK m = false := by
+  decide +kernel
+
+end PlayerGuards
+
 /-! ## Non-vacuity: concrete instances of the hypotheses -/
 
 /-- a raw module as a loader could leave it: one 4-row pattern, orders
@@ -433,15 +940,19 @@ example :
                            calls := 1 }).ctl.take 3 = [0, 0, 1]) := by
   decide +kernel
 
-/-- the epilogue's loop block: a loaded sample whose flagged loop ends past its
-data loses the loop (and only then) -/
+/-- the epilogue's loop block: a loaded sample whose loop points lie outside its
+data loses them, flagged as looped or not (and only then) -/
 example :
     let s : Sample := { name := [0], len := 100, lps := 10, lpe := 101, floop := true, floopBidir := true,
                         fsloop := false, fsloopBidir := false, other := 0, hasData := true }
     ((epilogueLoop s).lps, (epilogueLoop s).lpe, (epilogueLoop s).floop, (epilogueLoop s).floopBidir)
       = (0, 0, false, false)
     ∧ epilogueLoop { s with lpe := 100 } = { s with lpe := 100 }
-    ∧ epilogueLoop { s with hasData := false } = { s with hasData := false } := by
+    ∧ epilogueLoop { s with hasData := false } = { s with hasData := false }
+    -- the DBM witness: unlooped sample of 2 frames with loop points 3..5 set after the data was loaded
+    ∧ ((epilogueLoop { s with len := 2, lps := 3, lpe := 5, floop := false }).lps,
+       (epilogueLoop { s with len := 2, lps := 3, lpe := 5, floop := false }).lpe) = (0, 0)
+    ∧ epilogueLoop { s with lps := 20, lpe := 20, floop := false } = { s with lps := 20, lpe := 20, floop := false } := by
   decide +kernel
 
 /-- a module the gate refuses: pattern 0 references track 1 of 1 -/
